@@ -137,6 +137,7 @@ type verifCase struct {
 	InstGroup []int `json:"inst_group"` // ... and the group of every instance
 	Breaker bool     `json:"breaker"` // may push go-zero's circuit breaker over its threshold
 	Window  bool     `json:"window"`  // uses the (process-wide) log gate: run alone, after the pool
+	Shared  bool     `json:"shared_store"` // token: all limiters use ONE *redis.Redis object (as a service does)
 	Ops     [][]any  `json:"ops"`
 }
 
@@ -492,10 +493,14 @@ func verifMonitor(l *TokenLimiter) bool {
 // wait until every running monitor has seen the (reachable) store: normally ~pingInterval.  An
 // instance that has not switched back after `patience` (>= 20 monitor periods) is reported as
 // such (alive = false); that is an observation, judged by the check, not an executor error.
-func verifSync(lims []*TokenLimiter, patience time.Duration) []bool {
+func verifSync(lims []*TokenLimiter, patience time.Duration, held map[int]bool) []bool {
 	deadline := time.Now().Add(patience)
 	res := make([]bool, len(lims))
 	for i, l := range lims {
+		if held[i] { // the executor holds this limiter's rescueLock: its monitor cannot finish now
+			res[i] = verifAlive(l)
+			continue
+		}
 		polls := 0
 		for {
 			if verifAlive(l) && !verifMonitor(l) {
@@ -530,6 +535,7 @@ func verifTokenOnce(c verifCase) (out verifOut) {
 	st.install()
 	cx := &verifCtxs{}
 	lims := make([]*TokenLimiter, c.N)
+	held := map[int]bool{} // limiters whose rescueLock the executor holds (white-box gate)
 	patience := 2 * time.Second
 	if c.Breaker {
 		patience = 6 * time.Second // an open breaker also rejects the monitor's pings for a while
@@ -547,16 +553,27 @@ func verifTokenOnce(c verifCase) (out verifOut) {
 			st.setUp()
 		}
 		cx.release()
-		verifSync(lims, 300*time.Millisecond)
+		for i := range held {
+			if held[i] {
+				held[i] = false
+				lims[i].rescueLock.Unlock()
+			}
+		}
+		verifSync(lims, 300*time.Millisecond, nil)
 		verifPark(mr)
 	}()
 	expect := make([]bool, c.N)
+	shared := redis.New(mr.Addr())
 	for i := range lims {
+		store := shared
+		if !c.Shared {
+			store = redis.New(mr.Addr()) // separate Redis objects (they still share go-zero's per-address client)
+		}
 		if len(c.Groups) > 0 {
 			g := c.Groups[c.InstGroup[i]]
-			lims[i] = NewTokenLimiter(g.Rate, g.Burst, redis.New(mr.Addr()), g.Key)
+			lims[i] = NewTokenLimiter(g.Rate, g.Burst, store, g.Key)
 		} else {
-			lims[i] = NewTokenLimiter(c.Rate, c.Burst, redis.New(mr.Addr()), c.Key)
+			lims[i] = NewTokenLimiter(c.Rate, c.Burst, store, c.Key)
 		}
 		expect[i] = true
 	}
@@ -574,6 +591,10 @@ func verifTokenOnce(c verifCase) (out verifOut) {
 		switch op[0].(string) {
 		case "allow": // ["allow", i, n, {"skew": ms, "api": .., "ctx": kind, "fault": kind}]
 			i := vnum(op[1])
+			if held[int(i)] {
+				out.Err = "call on a limiter whose rescueLock the executor holds"
+				return
+			}
 			n := int(vnum(op[2]))
 			o := vopts(op, 3)
 			now := clock
@@ -639,6 +660,10 @@ func verifTokenOnce(c verifCase) (out verifOut) {
 			out.Obs = append(out.Obs, []bool{ok, before, after, brk})
 		case "par": // ["par", i, [n1, n2, ...]]: concurrent calls on ONE instance during an outage
 			i := vnum(op[1])
+			if held[int(i)] {
+				out.Err = "call on a limiter whose rescueLock the executor holds"
+				return
+			}
 			sizes := op[2].([]any)
 			before := verifAlive(lims[i])
 			if before != expect[i] {
@@ -701,6 +726,28 @@ func verifTokenOnce(c verifCase) (out verifOut) {
 		case "down":
 			st.setDown()
 			out.Obs = append(out.Obs, nil)
+		case "lock": // the executor takes limiter i's rescueLock: whoever wants to finish that limiter's recovery blocks
+			i := int(vnum(op[1]))
+			if !held[i] {
+				lims[i].rescueLock.Lock()
+				held[i] = true
+			}
+			out.Obs = append(out.Obs, nil)
+		case "unlock": // ... and gives it back; the held-up recovery of limiter i completes
+			i := int(vnum(op[1]))
+			if held[i] {
+				held[i] = false
+				lims[i].rescueLock.Unlock()
+			}
+			deadline := time.Now().Add(patience)
+			for polls := 0; ; polls++ {
+				if !verifMonitor(lims[i]) || (time.Now().After(deadline) && polls >= 400) {
+					break
+				}
+				time.Sleep(2 * time.Millisecond)
+			}
+			expect[i] = verifAlive(lims[i])
+			out.Obs = append(out.Obs, map[string]bool{"alive1": verifAlive(lims[i])})
 		case "parm": // the reply to every PING that the store answers from now on is held back
 			st.mu.Lock()
 			st.pgate, st.pheld, st.pgateCh = true, 0, make(chan struct{})
@@ -714,7 +761,7 @@ func verifTokenOnce(c verifCase) (out verifOut) {
 			running := make([]bool, len(lims))
 			want := 0
 			for i, l := range lims {
-				running[i] = verifMonitor(l) && !verifAlive(l)
+				running[i] = !held[i] && verifMonitor(l) && !verifAlive(l)
 				if running[i] {
 					want++
 				}
@@ -747,7 +794,7 @@ func verifTokenOnce(c verifCase) (out verifOut) {
 				done := true
 				for i, l := range lims {
 					alive[i] = verifAlive(l)
-					if verifMonitor(l) {
+					if !held[i] && verifMonitor(l) {
 						done = false
 					}
 				}
@@ -777,7 +824,7 @@ func verifTokenOnce(c verifCase) (out verifOut) {
 				all := true
 				for i, l := range lims {
 					alive[i] = verifAlive(l)
-					all = all && alive[i]
+					all = all && (alive[i] || held[i])
 				}
 				if all || (time.Now().After(deadline) && polls >= 400) {
 					break
@@ -787,8 +834,8 @@ func verifTokenOnce(c verifCase) (out verifOut) {
 			// a monitor that logs on its way out arrives in the gate now; HEAD's has already gone
 			for k := 0; k < 30 && verifLog.parked() == 0; k++ {
 				anyMon := false
-				for _, l := range lims {
-					anyMon = anyMon || verifMonitor(l)
+				for i, l := range lims {
+					anyMon = anyMon || (!held[i] && verifMonitor(l))
 				}
 				if !anyMon {
 					break
@@ -810,7 +857,7 @@ func verifTokenOnce(c verifCase) (out verifOut) {
 				}
 			}
 			if !st.down {
-				alive := verifSync(lims, patience)
+				alive := verifSync(lims, patience, held)
 				for i := range expect {
 					expect[i] = alive[i]
 				}
